@@ -113,6 +113,44 @@ CHECKS = {
             "be the specification's: bit-identical parameters and identical actions / values / log-probs, or an exception.",
             "pools of 4 policies per class (two architectures x two parameter keys).",
             "DESIGN.md section 4 C18"),
+    "C02": ("TLA+ EnvOpaque spec (episode envelope + typing invariant) with trace validation of built-in environment rollouts; membership as atoms",
+            "There is no discrete model of diffrax / MJX dynamics: EnvOpaque.tla contributes the episode envelope (TimeLimit counters, "
+            "auto-reset) so that every observation is attributed to the right state, and the invariant that every typing / membership "
+            "atom holds in every state of every trace; rollouts of every built-in environment class x options x wrapper stacks under "
+            "sampled and bound-corner action schedules are validated; atoms come from a numpy oracle independent of lerax's spaces.",
+            "thin use of the specification, said so: reachable continuous states are sampled, not enumerated; MuJoCo / G1 coverage is "
+            "deeper in the thorough tier (compile times).",
+            "DESIGN.md section 4 C02"),
+    "C11": ("TLA+ Purity spec (lock-step self-composition, leaking mutant as vacuity guard) + families of real learn() runs validated by TLC",
+            "TLC checks that two lock-step copies of the training loop with arbitrary observer states never diverge (and that a "
+            "training step reading observer state is caught); families of real learn() runs (algorithms x observer sets x keys x "
+            "repetitions) are validated: same inputs bit-identical, observers do not change the result (1e-5), different keys differ, "
+            "the policy passed in is untouched.",
+            "thin, said so: the substance is the recorded digests; single CPU device; runs with different observer sets are different "
+            "XLA programs and are compared with tolerance.",
+            "DESIGN.md section 4 C11"),
+    "C12": ("TLA+ collector specs: every stream of vmapped real collections validated as a single-environment trace; eager/jit/vmap agreement as atoms",
+            "(b) every environment stream of real vmapped on-policy and off-policy collections (num_envs 2..3) must be a behaviour of "
+            "the single-environment OnPolicy / OffPolicy specification started in its own carried state (own GAE, own ring, own "
+            "statistics): anything crossing streams is unexplainable there. (a) eager = jit = vmap for environment functions is an "
+            "atom inside the built-in environment traces.",
+            "(a) is numeric and thin (recorded states, tolerance 1e-5); (b) relies on leaked rows being unexplainable in the receiving stream.",
+            "DESIGN.md section 4 C12"),
+    "C17": ("TLA+ RefMDP spec (qualitative Gymnasium reference semantics) + threshold probes of the real classic-control environments judged by TLC; MuJoCo consistency atoms",
+            "RefMDP.tla states termination predicate, reward of every transition incl. the goal / terminal step and the left-wall rule "
+            "of the four classic-control counterparts; lerax environments are placed next to every threshold (thresholds read from "
+            "the installed Gymnasium objects) and every probe is judged; initial-state ranges and, for MuJoCo, kinematic consistency "
+            "of handed-out states and reward book-keeping are atoms.",
+            "NOT decided: equality of vector fields / integrated trajectories with Gymnasium and of MuJoCo observations, reward "
+            "components and termination with Gymnasium v5 (numeric comparison with an external simulator; no state-machine content).",
+            "DESIGN.md section 4 C17, section 5"),
+    "C20": ("TLA+ Gait spec (integer tick model, exact rational foot height): TLC exhaustive + real gait functions on tick grids validated; G1 episodes as atoms (thorough)",
+            "Gait.tla proves on tick grids that both phases stay in range, half a cycle apart and advance by the increment, and that "
+            "the Bezier foot height stays within [0, swing], vanishes at -pi and peaks at 0; the real advance_gait_phase / "
+            "desired_foot_height are validated step by step along long histories for every increment; real G1 episodes (randomisation "
+            "frame and ranges, kinematic consistency, gait coherence along env.step) are atoms in the thorough tier.",
+            "float drift over arbitrarily long histories is not decided; G1 environments only in the thorough tier (about 100 s compile per call).",
+            "DESIGN.md section 4 C20"),
 }
 
 PENDING_REASON = "check not built yet in this round (planned: see DESIGN.md section 4); not claimed until its machinery exists"
